@@ -26,6 +26,13 @@ func init() {
 }
 
 func c04Rules(tier string) []Rule {
+	rules := append(c04RulesBase(tier), allocatableViewRules("C04")...)
+	rules = append(rules, usageBookkeepingRules("C04")...)
+	rules = append(rules, syncedFreshRules("C04")...)
+	return rules
+}
+
+func c04RulesBase(tier string) []Rule {
 	const (
 		add    = "(*sched.Scheduler).add"
 		exN    = "(*sched.Scheduler).addToExistingNode"
@@ -141,17 +148,6 @@ func c04Rules(tier string) []Rule {
 		core.Custom{ID: "C04.VIEW1c", Kind: "PROV", Run: func(w *core.World, id string) []core.Result {
 			return core.InstrPresent(w, id, "PROV", sn+"Taints$1$1", `^return \(\*corev1\.Taint\)\.MatchTaint\(\$0, \^\$0\)$`, 1, "startup taints are matched by key and effect")
 		}},
-		core.Custom{ID: "C04.VIEW2", Kind: "RET", Run: func(w *core.World, id string) []core.Result {
-			rs := core.RetLeavesGuarded(w, id, "RET", sn+"Allocatable", 0, `^\$0\.NodeClaim\.Status\.Allocatable$|^lo\.Assign\[`,
-				G(`+^\(\*state\.StateNode\)\.Initialized\(\$0\)$`, `+^\$0\.NodeClaim == nil$`), 1,
-				"the raw Node allocatable is returned only when initialized or without NodeClaim")
-			rs = append(rs, core.RetLeavesGuarded(w, id, "RET", sn+"Allocatable", 0, `^\$0\.Node\.Status\.Allocatable$|^lo\.Assign\[`,
-				G(`+^\$0\.Node == nil$`), 1, "the NodeClaim's allocatable is used on its own only while there is no Node")...)
-			return rs
-		}},
-		POST{ID: "C04.VIEW2b", Fn: sn + "Allocatable", FromLit: `+^utils/resources\.IsZero\(lo\.Assign\[.*\]\(&local<\[1\]corev1\.ResourceList>\[:\]\)\[next\(range\(\$0\.NodeClaim\.Status\.Allocatable\)\)#1\]\)$`,
-			Must: []string{`^mapupdate lo\.Assign\[.*\]\(&local<\[1\]corev1\.ResourceList>\[:\]\)\[next\(range\(\$0\.NodeClaim\.Status\.Allocatable\)\)#1\] = next\(range\(\$0\.NodeClaim\.Status\.Allocatable\)\)#2$`},
-			Note: "zero quantities reported by an uninitialized node are overridden by the NodeClaim's"},
 		core.Custom{ID: "C04.VIEW3", Kind: "RET", Run: func(w *core.World, id string) []core.Result {
 			rs := core.RetLeavesGuarded(w, id, "RET", sn+"Labels", 0, `^\$0\.NodeClaim\.ObjectMeta\.Labels$`,
 				G(`+^\$0\.NodeClaim == nil$`, `+^\(\*state\.StateNode\)\.Registered\(\$0\)$`), 2, "Node labels are used only once registered (or unmanaged)")
